@@ -1427,6 +1427,15 @@ fn shrink(script: &[String], kind: &str, sig: &str, property: Option<&str>) -> V
 }
 
 /// one operation on a store that is held elsewhere
+/// an ADD query given as text; what it reports
+fn run_add_query(store: &mut AnnotationStore, text: &str) -> Result<(), String> {
+    let q = Query::try_from(text).map_err(|e| format!("{}", e))?;
+    let _ = stam::verif_hooks::verif_take_query_error();
+    let n = store.query_mut(q).map_err(|e| format!("{}", e))?.count();
+    let _ = n;
+    match stam::verif_hooks::verif_take_query_error() { Some(e) => Err(e), None => Ok(()) }
+}
+
 pub fn exec_on(store: &mut AnnotationStore, line: &str) -> String {
     let mut ex = Exec { store: std::mem::replace(store, new_store()) };
     let r = ex.exec(line);
@@ -1550,6 +1559,53 @@ pub fn run(opts: &Opts) -> Report {
                 Ok(Err(_)) => rep.count("annotate_from_file:well-formed-but-annotate-failed"),
             }
             std::fs::remove_file(&path).ok();
+        }
+        // ---- batches: a well-formed element that annotate() refuses, after elements it accepts (file, iterator, ADD query) ----
+        for i in 0..(if opts.thorough() { 60 } else { 18 }) {
+            let how = i % 3;                               // 0 = annotate_from_file, 1 = annotate_from_iter, 2 = ADD query
+            let kind = (i / 3) % 3;                        // 0 = unknown resource, 1 = offset outside the text, 2 = identifier used before
+            let ngood = 1 + (i / 9) % 3;                   // elements before the refused one
+            let kindname = ["unknown-resource", "offset-outside-text", "identifier-used-before"][kind];
+            let howname = ["annotate_from_file", "annotate_from_iter", "add-query"][how];
+            if how == 2 && kind != 2 { continue; }         // (the query form: one ID assignment over several rows)
+            let mut ex = Exec::new();
+            let mut script: Vec<String> = vec!["st addres r0 9".into(), "st addres r1 9".into(), "st addres r2 9".into(), "st addres r3 9".into(), "st adddata s0 d0 k0 s:v0".into()];
+            if how == 2 { script.truncate(1 + ngood.min(3)); if script.len() < 2 { script.push("st addres r1 9".into()); } }
+            for l in &script { ex.exec(l); }
+            let before = observe(&ex.store);
+            let spec = |k: usize| -> (String, String, usize, usize) { if k < ngood { (format!("batch{}", k), "r0".to_string(), k, k + 2) } else { match kind { 0 => ("bad".to_string(), "nores".to_string(), 0, 1), 1 => ("bad".to_string(), "r0".to_string(), 100, 200), _ => ("batch0".to_string(), "r0".to_string(), 3, 4) } } };
+            let r: Result<Result<(), String>, String> = match how {
+                0 => {
+                    let items: Vec<String> = (0..=ngood).map(|k| { let (id, res, b, e) = spec(k); format!("{{\"@type\": \"Annotation\", \"@id\": \"{}\", \"target\": {{\"@type\": \"TextSelector\", \"resource\": \"{}\", \"offset\": {{\"@type\": \"Offset\", \"begin\": {{\"@type\": \"BeginAlignedCursor\", \"value\": {}}}, \"end\": {{\"@type\": \"BeginAlignedCursor\", \"value\": {}}}}}}}, \"data\": [{{\"@type\": \"AnnotationData\", \"set\": \"s0\", \"key\": \"k0\", \"value\": {{\"@type\": \"String\", \"value\": \"v0\"}}}}]}}", id, res, b, e) }).collect();
+                    let path = dir.join(format!("b{}.json", i));
+                    std::fs::write(&path, format!("[{}]", items.join(",\n"))).ok();
+                    let r = guarded(std::panic::AssertUnwindSafe(|| ex.store.annotate_from_file(path.to_str().unwrap()).map(|_| ()).map_err(|e| format!("{}", e))));
+                    std::fs::remove_file(&path).ok();
+                    r
+                }
+                1 => guarded(std::panic::AssertUnwindSafe(|| {
+                    let builders: Vec<AnnotationBuilder> = (0..=ngood).map(|k| { let (id, res, b, e) = spec(k); AnnotationBuilder::new().with_id(id).with_target(SelectorBuilder::textselector(BuildItem::Id(res), Offset::simple(b, e))).with_data("s0", "k0", "v0") }).collect();
+                    ex.store.annotate_from_iter(builders.into_iter()).map(|_| ()).map_err(|e| format!("{}", e))
+                })),
+                _ => {
+                    let r = run_add_query(&mut ex.store, "ADD ANNOTATION ?new WITH ID \"onlyone\"; TARGET ?x; DATA \"s0\" \"k0\" \"v0\"; { SELECT RESOURCE ?x }");
+                    if std::env::var("VERIF_DEBUG").is_ok() { eprintln!("add-query batch: {:?}", r); }
+                    Ok(r)
+                }
+            };
+            let after = observe(&ex.store);
+            let mut ctx = script.clone();
+            ctx.push(format!("{}: {} element(s) annotate() accepts, then one it refuses ({})", howname, ngood, kindname));
+            rep.count(&format!("batch:{}:{}", howname, kindname));
+            rep.case(Some(&format!("batch {} {} {}", howname, kindname, ngood)));
+            match r {
+                Err(p) => rep.fail("panic", &format!("C14/batch/{}-panics", howname), ctx, "Ok or Err", &p),
+                Ok(Ok(())) => rep.fail("oracle", &format!("C14/batch/{}-accepted-what-annotate-refuses", howname), ctx, "an error", "Ok"),
+                Ok(Err(e)) => if before != after {
+                    let kept = after.contains("[batch0]") || after.contains("[onlyone]");
+                    rep.fail("oracle", &format!("C14/batch/{}/{}", howname, if kept { "elements-before-the-refused-one-stay" } else { "store-changed" }), ctx, "the store as it was", &format!("{} ({})", if kept { "the annotations before the refused element are in the store" } else { "something else changed" }, e.chars().take(100).collect::<String>()));
+                },
+            }
         }
         std::fs::remove_dir_all(&dir).ok();
     }
